@@ -159,6 +159,10 @@ func runC11(c *Ctx) {
 		}
 	}
 	c.Min("C11.X2", 1)
+	// the composer applies a validated ietf-json-patch through the library only: no other code path produces document
+	// bytes from an operation (the pointer rules above are rules about what the *library* does with a pointer)
+	c.jsonPatchFoldRule("C11.X3")
+	c.Min("C11.X3", 1)
 
 	// validator and composer use the same decoder, on the patch's own value
 	decode := lib.Func("DecodePatch")
